@@ -183,7 +183,7 @@ def true_degree(expr, gdim, tdim):
             r = 0 if not isinstance(v, Argument) else v.ufl_element().embedded_superdegree
         elif isinstance(v, Indexed):
             A, ii = v.ufl_operands
-            if isinstance(A, Coefficient) and A.ufl_element().sub_elements and all(
+            if isinstance(A, (Coefficient, Argument)) and A.ufl_element().sub_elements and all(
                     hasattr(i, "_value") for i in ii.indices()):
                 flat = 0
                 for i, s in zip(ii.indices(), A.ufl_shape):
@@ -267,6 +267,17 @@ def _build():
     M6 = mixed("M6", [inner_, E("Ec6", triangle, 2)])
     w6 = Coefficient(FunctionSpace(dom, M6), count=10)
     SK["nested_mixed"] = [(w6[k] * w6[3], 2, 2) for k in range(4)] + [(w6[k] * w6[k], 2, 2) for k in range(4)]
+    # Arguments (test / trial functions) on elements whose sub- and super-degree differ, used whole, through a free
+    # index and through fixed components of a mixed space
+    va = Argument(FunctionSpace(dom, E("Eav", triangle, 2, (), identity_pullback, H1, (), 1)), 0)
+    ua = Argument(FunctionSpace(dom, E("Eau", triangle, 2, (), identity_pullback, H1, (), 1)), 1)
+    pa = Argument(FunctionSpace(dom, E("Eap", triangle, 2, (2,), identity_pullback, H1, (), 1)), 0)
+    qa = Argument(FunctionSpace(dom, E("Eaq", triangle, 2, (2,), identity_pullback, H1, (), 1)), 1)
+    M7 = mixed("M7", [E("Ea7", triangle, 2, (), identity_pullback, H1, (), 1), E("Eb7", triangle, 2)])
+    ta = Argument(FunctionSpace(dom, M7), 0)
+    SK["arguments"] = [(f * ua * va, 2, 2), (ua * va, 2, 2), (grad(ua)[0] * va, 2, 2), (apply_algebra_lowering(dot(pa, qa)), 2, 2),
+                       (va, 2, 2), (f * va + g * g * va, 2, 2), (ta[0] * f, 2, 2), (ta[1] * f, 2, 2), (ta[0] * ta[1], 2, 2),
+                       (apply_algebra_lowering(dot(ta, ta)), 2, 2)]
     return SK
 
 
@@ -407,6 +418,15 @@ def enriched_sub_element(p: int, s: int, q: int) -> int:
     """
     _set(Eb5=(p, s), Ep5=q)
     return _worst("enriched_sub_element")
+
+
+def arguments_enriched(p: int, s: int, q: int, r: int) -> int:
+    """
+    pre: 0 <= s <= p <= 5 and 0 <= r <= q <= 5
+    post: _ >= 0
+    """
+    _set(Eav=(p, s), Eau=(q, r), Eap=(p, s), Eaq=(q, r), Ea7=(p, s), Eb7=(q, q), Ef=q, Eg=r)
+    return _worst("arguments")
 
 
 def nested_mixed(p: int, q: int, r: int) -> int:
